@@ -1002,7 +1002,7 @@ fn evaluate_all(tera: &Tera, cases: &[Case], threads: usize) -> Vec<Evaluated> {
     let chunk = cases.len().div_ceil(threads).max(1);
     let t0 = Instant::now();
     let done = AtomicBool::new(false);
-    const LIMIT_MS: u64 = 8_000;
+    const LIMIT_MS: u64 = 60_000;
     std::thread::scope(|s| {
         let (t0, done) = (&t0, &done);
         // watchdog: a case running for more than LIMIT_MS is reported and the run ends
@@ -1422,8 +1422,8 @@ fn main() {
 
     // the zero-step guard first, one case at a time with a deadline
     for c in canaries() {
-        if run_case_guarded(&tera, &c, Duration::from_secs(2)).is_none() {
-            report_hang_and_exit(&c, 2.0);
+        if run_case_guarded(&tera, &c, Duration::from_secs(30)).is_none() {
+            report_hang_and_exit(&c, 30.0);
         }
     }
     report.count_n("canary.zero-step-cases-answered", canaries().len() as u64);
